@@ -374,6 +374,10 @@ impl Router {
                 client_id.clone(),
                 (will, connection.last_will_properties.take()),
             );
+        } else {
+            // a will registered by an earlier connection of this client id (taken over, or whose
+            // PublishWill has not arrived yet) must not be published on behalf of this one
+            self.last_wills.remove(&client_id);
         }
 
         let connection_id = self.connections.insert(connection);
